@@ -73,6 +73,7 @@ inductive Val
   | provider
   | zero          -- optional dependency left at its zero value
   | unit          -- `struct{}{}` of a void-return constructor
+  | absent        -- cached under the identity of a result-object field the constructor left nil
 deriving DecidableEq, Repr, Inhabited
 
 inductive Outcome | ok | err | panic | nilOut
@@ -223,6 +224,17 @@ def storeOuts (st : State) (s : Nat) (sibs : List Desc) (outs : List Inst) : Sta
 def shareAll (st : State) (s : Nat) (self : Nat) (sibs : List Desc) (v : Val) : State :=
   sibs.foldl (fun st d => if d.id = self then st else shareInstance st s d d.ident v) st
 
+/-- a result-object field left nil: its identity is cached as `absent` (scoped: in the scope, singleton:
+in the provider's table; transient: nothing) so that it is not constructed again -/
+def markAbsent (st : State) (s : Nat) (sibs0 : List Desc) (nil? : Option Nat) : State :=
+  match nil? with
+  | some k => match sibs0[k]? with
+    | some dk => shareInstance st s dk dk.ident .absent
+    | none => st
+  | none => st
+
+@[simp] theorem markAbsent_none (st : State) (s : Nat) (sibs0 : List Desc) : markAbsent st s sibs0 none = st := rfl
+
 def idxOfDesc (sibs : List Desc) (id : Nat) : Nat :=
   (sibs.map (·.id)).idxOf id
 
@@ -247,10 +259,12 @@ def resolveDesc (beh : Beh) : Nat → State → Nat → Desc → State × Except
     match d.life with
     | .singleton =>
       match lookup st.singletons d.ident with
+      | some .absent => (st, .error [.validation])     -- "result object field was nil"
       | some v => (st, .ok v)
       | none => (st, .error [.resolution, .singletonNotInit])
     | .scoped =>
       match lookup ((st.scope s).instances.getD []) d.ident with
+      | some .absent => (st, .error [.validation])
       | some v => (st, .ok v)
       | none => createInstance beh f st s d
     | .transient => createInstance beh f st s d
@@ -325,7 +339,9 @@ def createInstance (beh : Beh) : Nat → State → Nat → Desc → State × Exc
             let outs := allocOuts st2.next sibs'.length
             let st3 := logEv (alloc st2 sibs'.length d.ctor n) (.ctor d.id d.ctor n s args outs)
             let r := storeOuts st3 s sibs' outs
-            (r.1, if (sibs'.map (·.id)).contains d.id then okOr r.2 (.inst (outs.getD (idxOfDesc sibs' d.id) 0))
+            -- the identity of the nil field is remembered as constructed-without-value
+            (markAbsent r.1 s sibs0 (beh.nilField d.ctor n),
+                  if (sibs'.map (·.id)).contains d.id then okOr r.2 (.inst (outs.getD (idxOfDesc sibs' d.id) 0))
                   else match r.2 with
                     | .error e => .error e
                     | .ok _ => .error [.validation])  -- "result object produced no services"
@@ -487,6 +503,8 @@ def createSingletons (beh : Beh) (st : State) : List Nat → State × Except Err
     | none => createSingletons beh st rest
     | some d =>
       if d.life != .singleton then createSingletons beh st rest
+      else if lookup st.singletons d.ident == some .absent then
+        (st, .error [.resolution, .resolution, .validation])   -- a sibling's field for this identity was nil
       else if (lookup st.singletons d.ident).isSome then createSingletons beh st rest
       else
         let r := createInstance beh (fuelFor st) st rootScope d
